@@ -182,7 +182,22 @@ def _rsh_server(addrs):
         try:
             port = rdz(c)
             e = back(peer[0], int(port)) if port and int(port) > 0 else None
-            rdz(c); rdz(c); rdz(c)
+            rdz(c); rdz(c); cmdline = rdz(c)
+            if mode == "nostatus":
+                # accepts the request, then goes away without the one-byte status: the host could not be reached
+                if e:
+                    e.close()
+                c.close()
+                return
+            if mode.startswith("shell"):
+                # a remote shell whose command exits with the given code: it prints pdsh's status line iff the command carries the suffix
+                c.sendall(b"\0"); c.sendall(b"out of " + name.encode() + b"\n")
+                if b"XXRETCODE:" in cmdline:
+                    c.sendall(b"XXRETCODE:" + mode[5:].encode() + b"\n")
+                if e:
+                    e.close()
+                c.close()
+                return
             if mode == "hang":
                 time.sleep(60)
                 return
